@@ -14,7 +14,7 @@ use super::sm9util::*;
 use crate::engine::*;
 use crate::gen;
 use crate::refimpl::ec::Pt;
-use crate::refimpl::field::{big, from_be, to32, to_limbs, Fld, Fp};
+use crate::refimpl::field::{big, from_be, to32, to_limbs, Fp};
 use crate::refimpl::sm3 as rsm3;
 use crate::refimpl::sm9::{self as r9, F12};
 
